@@ -5,6 +5,7 @@
 //   c06_subsets subsets <out.ndjson> <stage>       stage 0: quick family of view numbers, 1: ALL views 1..96
 //   c06_subsets proj    <out.ndjson> <stage>       projector / objective-function level: which viewgrams are touched
 //   c06_subsets sched   <out.ndjson> <maxN> <iters> <stage>   sub-iteration -> subset schedules
+//   c06_subsets recon   <out.ndjson> <out-sched.ndjson> <stage>   real reconstructions on recording data (both kinds of lines)
 //
 // A (view, segment) pair is logged as the integer code (segment+8)*256 + view; a (view, segment, TOF bin)
 // triple as ((tof+8)*32 + segment+8)*256 + view.
@@ -99,7 +100,15 @@ static bool build(Built& b, const Variant& v, int views, std::string* msg, int r
     const int N = 2 * views * v.mash;
     shared_ptr<Scanner> sc = vh::make_scanner(N, rings, v.tofMash > 0 ? 5 : 0, geom);
     const int nt = std::max(1, std::min(ntang > 0 ? ntang : 5, N - 1));
-    b.pdi = ProjDataInfo::construct_proj_data_info(sc, 1, rings - 1, views, nt, false, v.tofMash);
+    if (v.kind == "subsetpdi") {
+      // the `views' even views of data with twice as many views (ProjDataInfoSubsetByView)
+      shared_ptr<Scanner> sc2 = vh::make_scanner(2 * N, rings, 0, geom);
+      shared_ptr<ProjDataInfo> org = ProjDataInfo::construct_proj_data_info(sc2, 1, rings - 1, 2 * views, std::max(1, std::min(5, 2 * N - 1)), false, 0);
+      std::vector<int> sel;
+      for (int i = 0; i < views; ++i) sel.push_back(2 * i);
+      b.pdi.reset(new ProjDataInfoSubsetByView(org, sel));
+    } else
+      b.pdi = ProjDataInfo::construct_proj_data_info(sc, 1, rings - 1, views, nt, false, v.tofMash);
     CartesianCoordinate3D<float> origin(0.F, 0.F, v.shifted ? 3.F : 0.F);
     auto* vox = new VoxelsOnCartesianGrid<float>(*b.pdi, 1.F, origin, CartesianCoordinate3D<int>(-1, 5, 5));
     if (v.nonsquare) {
@@ -228,6 +237,7 @@ static std::vector<Variant> extra_variants() {
   { Variant v; v.kind = "cyl"; v.r90 = v.r180 = v.rseg = true; v.mash = 2; vs.push_back(v); }              // phi offset: view symmetries off
   { Variant v; v.kind = "shifted"; v.r90 = v.r180 = v.rseg = true; v.shifted = true; vs.push_back(v); }    // shifted image: all off
   { Variant v; v.kind = "blocks"; v.r90 = v.r180 = v.rseg = true; vs.push_back(v); }                       // blocks: all off
+  { Variant v; v.kind = "subsetpdi"; v.r90 = v.r180 = v.rseg = true; vs.push_back(v); }                    // ProjDataInfoSubsetByView: view symmetries off
   { Variant v; v.kind = "trivial"; v.r90 = v.r180 = v.rseg = false; v.tofMash = 1; vs.push_back(v); }
   return vs;
 }
@@ -236,9 +246,9 @@ static void mode_subsets(vh::Trace& tr, int stage, vh::Rng& rng) {
   std::vector<int> viewsList;
   if (stage >= 1) for (int v = 1; v <= 96; ++v) viewsList.push_back(v);
   else {
-    for (int v = 1; v <= 20; ++v) viewsList.push_back(v);
-    for (int v : { 24, 28, 36, 45, 64, 96 }) viewsList.push_back(v);
-    viewsList.push_back(rng.range(21, 95));
+    for (int v = 1; v <= 32; ++v) viewsList.push_back(v);
+    for (int v : { 36, 45, 48, 64, 90, 96 }) viewsList.push_back(v);
+    viewsList.push_back(rng.range(33, 95));
   }
   const std::vector<Variant> sv = switch_variants(), ev = extra_variants();
   for (int views : viewsList) {
@@ -378,12 +388,102 @@ static void mode_proj(vh::Trace& tr, int stage, vh::Rng& rng) {
     }
 }
 
-// ---------------------------------------------------------------------------------------------------
-// schedules: the subset numbers IterativeReconstruction hands to the objective function
-// ---------------------------------------------------------------------------------------------------
 struct PlainOSSPS : public OSSPSReconstruction<Image> {
   PlainOSSPS() { this->precomputed_denominator_filename = "1"; this->relaxation_parameter = 1.F; this->relaxation_gamma = 0.1F; this->upper_bound = 1e6; }
 };
+
+// ---------------------------------------------------------------------------------------------------
+// end to end: real OSMAPOSL / OSSPS reconstructions with the real projection-data objective function
+// (wrapped by the recording objective function) on recording projection data: per sub-iteration the
+// subset number handed over AND the viewgrams of the measured data that were read
+// ---------------------------------------------------------------------------------------------------
+static void record_recon(vh::Trace& tr, vh::Trace& trs, const Variant& v, int views, int N, const std::string& algo, bool randomise,
+                         int startSubset, int startSubiter, int iters) {
+  Built b;
+  std::string msg;
+  if (!build(b, v, views, &msg, 2, 3)) { tr.emit(vh::Json("ConfigRejected").str("kind", v.kind).num("views", views).str("msg", msg)); return; }
+  shared_ptr<ExamInfo> ei(new ExamInfo);
+  ei->imaging_modality = ImagingModality::PT;
+  shared_ptr<RecProjData> pd(new RecProjData(ei, b.pdi));
+  pd->fill(1.F);
+  shared_ptr<PLL> inner(new PLL);
+  inner->set_proj_data_sptr(pd);
+  inner->set_projector_pair_sptr(b.pair);
+  inner->set_use_subset_sensitivities(true);
+  inner->set_recompute_sensitivity(true);
+  inner->set_zero_seg0_end_planes(false);
+  std::vector<std::vector<int>> calls;   // [subiter, subset, nsub]
+  std::vector<std::vector<int>> touched;
+  IterativeReconstruction<Image>* recon_ptr = nullptr;
+  const char* wanted = algo == "OSMAPOSL" ? "sub_gradient_ps" : "sub_gradient";
+  vh::ObjCallback cb = [&](const vh::ObjCall& call) {
+    if (!call.is(wanted)) return;
+    if (!call.after) { calls.push_back({ recon_ptr->get_subiteration_num(), call.subset_num, call.num_subsets }); pd->start(); }
+    else { pd->stop(); touched.push_back(pd->reads); }
+  };
+  shared_ptr<GeneralisedObjectiveFunction<Image>> obj;
+  if (algo == "OSMAPOSL") obj.reset(new vh::WrapPoissonLL(inner, cb)); else obj.reset(new vh::WrapObjective(inner, cb));
+  shared_ptr<IterativeReconstruction<Image>> recon;
+  if (algo == "OSMAPOSL") recon.reset(new OSMAPOSLReconstruction<Image>); else recon.reset(new PlainOSSPS);
+  recon_ptr = recon.get();
+  bool setup_ok = false;
+  const int numSubiters = N * iters;
+  const bool err = vh::threw([&] {
+    recon->set_objective_function_sptr(obj);
+    recon->set_disable_output(true);
+    recon->set_num_subsets(N);
+    recon->set_start_subset_num(startSubset);
+    recon->set_start_subiteration_num(startSubiter);
+    recon->set_num_subiterations(numSubiters);
+    recon->set_save_interval(numSubiters);
+    recon->set_randomise_subset_order(randomise);
+    shared_ptr<Image> target(b.image->clone());
+    target->fill(1.F);
+    setup_ok = recon->set_up(target) == Succeeded::yes;
+    if (setup_ok) recon->reconstruct(target);
+  }, &msg);
+  pd->stop();
+  const int used = recon->get_num_subsets(), objN = obj->get_num_subsets();
+  b.refresh();
+  emit_config(tr, v, b, views, b.pdi->get_max_segment_num());
+  emit_basic_related(tr, b, b.pdi->get_max_segment_num());
+  std::vector<int> subs, its, ns;
+  for (size_t i = 0; i < calls.size(); ++i) {
+    its.push_back(calls[i][0]); subs.push_back(calls[i][1]); ns.push_back(calls[i][2]);
+    if (i < touched.size()) emit_touched(tr, algo == "OSMAPOSL" ? "osmaposl" : "ossps", calls[i][2], calls[i][1], false, touched[i]);
+  }
+  trs.emit(vh::Json("SchedRun").str("algo", algo + "+PLL").num("N", N).num("maxSubsets", 0).num("used", used).num("objN", objN)
+               .num("startSubset", startSubset).num("startSubiter", startSubiter).num("numSubiters", numSubiters)
+               .boolean("randomise", randomise).num("reuseN", 0).boolean("setupOk", setup_ok).boolean("err", err)
+               .boolean("abort", false).num("sig", 0).arr("subiters", its).arr("subsets", subs).arr("nsub", ns).arr("first", std::vector<int>())
+               .num("views", views).str("kind", v.kind).str("msg", err ? msg : ""));
+}
+
+static void mode_recon(vh::Trace& tr, vh::Trace& trs, int stage, vh::Rng& rng) {
+  std::vector<Variant> vars = switch_variants();
+  { Variant v; v.kind = "cyl"; v.r90 = v.r180 = v.rseg = true; v.tofMash = 1; vars.push_back(v); }
+  for (int views : (stage ? std::vector<int>{ 2, 3, 4, 6, 8, 12, 16 } : std::vector<int>{ 4, 6, 8 }))
+    for (auto& v : vars)
+      for (int N = 1; N <= views; ++N) {
+        if (views > 8 && views % N != 0 && rng.range(0, 3) != 0) continue;
+        for (int randomise = 0; randomise < 2; ++randomise) {
+          const int startSubset = rng.range(0, N - 1), startSubiter = rng.coin() ? 1 : rng.range(1, N);
+          // OSSPS works with any number of subsets; OSMAPOSL refuses unbalanced subsets (the library's own verdict is used as the gate)
+          record_recon(tr, trs, v, views, N, "OSSPS", randomise != 0, startSubset, startSubiter, 2);
+          Built b; std::string m;
+          if (!build(b, v, views, &m, 2, 3)) continue;
+          shared_ptr<ExamInfo> ei(new ExamInfo);
+          shared_ptr<ProjData> pd(new ProjDataInMemory(ei, b.pdi));
+          PLL probe; probe.set_proj_data_sptr(pd); probe.set_projector_pair_sptr(b.pair); probe.set_max_segment_num_to_process(b.pdi->get_max_segment_num()); probe.set_num_subsets(N);
+          if (probe.subsets_are_approximately_balanced())
+            record_recon(tr, trs, v, views, N, "OSMAPOSL", randomise != 0, startSubset, startSubiter, 2);
+        }
+      }
+}
+
+// ---------------------------------------------------------------------------------------------------
+// schedules: the subset numbers IterativeReconstruction hands to the objective function
+// ---------------------------------------------------------------------------------------------------
 
 struct SchedCfg { std::string algo; int N, maxSubsets, startSubset, startSubiter, numSubiters; bool randomise; int reuseN; };
 
@@ -529,6 +629,10 @@ int main(int argc, char** argv) {
     mode_subsets(tr, atoi(argv[3]), rng);
   } else if (mode == "proj") {
     mode_proj(tr, atoi(argv[3]), rng);
+  } else if (mode == "recon") {
+    vh::Trace trs(argv[3]);          // schedule lines go to a second file
+    vh::Trace::current() = &tr;
+    mode_recon(tr, trs, argc > 4 ? atoi(argv[4]) : 0, rng);
   } else if (mode == "sched") {
     const int maxN = atoi(argv[3]), iters = argc > 4 ? atoi(argv[4]) : 3, stage = argc > 5 ? atoi(argv[5]) : 0;
     mode_sched(tr, maxN, iters, stage, rng, std::string(argv[2]) + ".child");
